@@ -34,6 +34,8 @@ func main() {
 		runPool(*in, *out, *seed)
 	case "resp":
 		runResp(*in, *out, *seed)
+	case "entity":
+		runEntity(*in, *out, *seed)
 	case "nego":
 		runNego(*in, *out, *seed)
 	default:
